@@ -11,6 +11,7 @@ Inductive lop :=
 | ODestroy
 | OLog                      (* log through a registered tag at an enabled level *)
 | OWrite                    (* write through a named handle *)
+| OWriteRoot                (* write through the handle named root, none of the configurations defines a root logger *)
 | ORegisterTag
 | OGetLogger.
 
@@ -44,6 +45,7 @@ Definition lstep (s : lstate) (o : lop) : lstate * lout :=
       else (s, Done)
   | OLog => (s, match l_tag s with Some c => ToConfig c | None => ToConsole end)
   | OWrite => (s, match l_handle s with Some c => ToConfig c | None => ToConsole end)
+  | OWriteRoot => (s, ToConsole)                   (* bound to the root logger = the built-in console logger, or unbound: console either way *)
   | ORegisterTag => (s, if l_init s then Refused else Registered)
   | OGetLogger => (s, if l_init s then Refused else Registered)
   end.
